@@ -479,13 +479,21 @@ class Gen:
         return out
 
 
-def gen_root(rng, named, n_rules=None, hook_p=0.5, ignore=None, features=None, class_start=True, max_rep_lo=2):
+def is_start(name):
+    return isinstance(name, str) and name.lower() == 'start'
+
+
+def gen_root(rng, named, n_rules=None, hook_p=0.5, ignore=None, features=None, class_start=True, max_rep_lo=2,
+             start_spelling=None):
     """A root (non-extending) module spec.  Returns (spec, gen) -- gen carries the rule table.
     ignore: None = random, 'none' | 'anon' | 'named'."""
     g = Gen(rng, features)
     g.max_rep_lo = max_rep_lo
     n = n_rules or rng.randint(2, 7)
-    names = ['start'] + ['R%d' % i for i in range(1, n)]
+    # the start rule is recognised whatever its case; rule names themselves are case-sensitive
+    sname = start_spelling or 'start'
+    names = [sname] + ['R%d' % i for i in range(1, n)]
+    g.start_name = sname
     if ignore is None:
         ignore = rng.choice([None, None, 'anon', 'named'])
     elif ignore == 'none':
@@ -561,7 +569,7 @@ def gen_root(rng, named, n_rules=None, hook_p=0.5, ignore=None, features=None, c
                     f['expr'] = g.add_hooks(f['expr'], 0.15)
                 if rng.random() < 0.5:
                     it['fields'].insert(0, {'name': 'h', 'expr': ['hook', g.new_tag()], 'mod': 'pass'})
-    if names[0] != 'start':
+    if not is_start(names[0]):
         out = order + out + ig_items     # no 'start' rule: the first item is the start
     elif rng.random() < 0.5:
         out = ig_items + out + order
@@ -571,7 +579,8 @@ def gen_root(rng, named, n_rules=None, hook_p=0.5, ignore=None, features=None, c
     return spec, g
 
 
-def gen_child(rng, parent_gen, hook_p=0.4, ignore=None, allow_super=True, force=(), override_ignore_p=0.0):
+def gen_child(rng, parent_gen, hook_p=0.4, ignore=None, allow_super=True, force=(), override_ignore_p=0.0,
+              respell_start_p=0.0):
     """A module spec extending the module described by parent_gen.table.
     Returns (spec, gen) where gen.table is the effective table of the child."""
     g = Gen(rng, parent_gen.features)
@@ -580,17 +589,30 @@ def gen_child(rng, parent_gen, hook_p=0.4, ignore=None, allow_super=True, force=
     g.res = list(parent_gen.res)
     g.tagn = parent_gen.tagn + 100
     g.table = {n: dict(i) for n, i in parent_gen.table.items()}
-    cands = sorted(n for n, i in g.table.items() if i['kind'] in ('rule', 'class') and n not in ('start',))
-    start_ok = 'start' in g.table
+    cands = sorted(n for n, i in g.table.items() if i['kind'] in ('rule', 'class') and not is_start(n))
+    eff = getattr(parent_gen, 'start_name', None)
+    if eff is None or eff not in g.table:
+        eff = 'start' if 'start' in g.table else None
+    g.start_name = eff
+    start_ok = eff is not None
     k = min(len(cands), rng.choice([0, 1, 1, 2, 3]))
     overridden = rng.sample(cands, k) if k else []
     for n in force:
         if n in g.table and n not in overridden:
             overridden.append(n)
     if start_ok and rng.random() < 0.2:
-        overridden.append('start')
+        nm = eff
+        if respell_start_p and rng.random() < respell_start_p:
+            # the derived grammar spells its start rule differently (Start / START / start): by name it is
+            # a NEW rule, but it is this grammar's start rule all the same
+            alts = [v for v in ('start', 'Start', 'START') if v not in g.table]
+            if alts:
+                nm = rng.choice(alts)
+                g.table[nm] = dict(g.table[eff])
+                g.start_name = nm
+        overridden.append(nm)
     n_new = rng.choice([0, 1, 1, 2])
-    if start_ok and not force and ignore is None and rng.random() < 0.06:
+    if start_ok and not force and ignore is None and g.start_name == 'start' == eff and rng.random() < 0.06:
         # a derived grammar that consists of a new start expression only
         overridden, n_new = ['start'], 0
     items = []
@@ -613,7 +635,7 @@ def gen_child(rng, parent_gen, hook_p=0.4, ignore=None, allow_super=True, force=
         # super.<name> only for names the parent chain defines (not for rules new at this level)
         supers = tuple(sorted(n for n, i in parent_gen.table.items() if i['kind'] in ('rule', 'class'))) if allow_super else ()
         # bias: an override that mentions super.<itself>
-        if allow_super and rng.random() < 0.5:
+        if allow_super and nm in parent_gen.table and rng.random() < 0.5:
             alt = g.expr(info['rank'], True, consume, 1, supers)
             body = ['alt', alt, ['super', nm]] if rng.random() < 0.7 else ['alt', ['super', nm], alt]
         else:
